@@ -210,15 +210,18 @@ package logx
 //@   requires l != nil
 //@   ensures [recorded-name-else-from-rule] (len(l.backup) > 0 ==> result == l.backup && calls(BackupFilename) == 0) && (len(l.backup) == 0 ==> calls(l.rule.BackupFilename) == 1 && result == ret(BackupFilename))
 
-// writeJson: a record is encoded into bytes of its own (the encoder's result, extended by the newline - never a
-// buffer shared with other records: the rotating writer queues the slice without copying it) and written once.
+// writeJson: the record is encoded once (json.Marshal, or an Encoder into a buffer) and, if that succeeded and there
+// is a writer, handed to it in exactly one Write; an encoding failure writes nothing. (Whether the bytes are the
+// encoder's own or a pooled buffer no longer matters: since fix "RotateLogger.Write queues a copy" the rotating
+// writer keeps nothing of the slice it is given.)
 //@ func writeJson
 //@   prop C19
-//@   opaque Println
-//@   let content = ret(json.Marshal, 0)
-//@   ensures [encode-error-not-written] ret(json.Marshal, 1) != nil ==> calls(Write) == 0
-//@   ensures [own-bytes-written-once] ret(json.Marshal, 1) == nil && writer != nil ==> calls(writer.Write) == 1 && len(arg(writer.Write, 0)) == len(content) + 1 && arg(writer.Write, 0)[len(content)] == 10 && (arg(writer.Write, 0).arr == content.arr || fresh(arg(writer.Write, 0)))
-//@   ensures [encodes-the-record] calls(json.Marshal, info) == 1
+//@   opaque Println, Print
+//@   ensures [record-encoded-once] calls(json.Marshal, info) + calls(Encode, _, info) == 1
+//@   ensures [alt-marshal-error-not-written] calls(json.Marshal) == 1 && ret(json.Marshal, 1) != nil ==> calls(Write) == 0
+//@   ensures [alt-marshalled-bytes-plus-newline-in-one-write] calls(json.Marshal) == 1 && ret(json.Marshal, 1) == nil && writer != nil ==> calls(writer.Write) == 1 && calls(Write) == 1 && len(arg(writer.Write, 0)) == len(ret(json.Marshal, 0)) + 1 && arg(writer.Write, 0)[len(ret(json.Marshal, 0))] == 10
+//@   ensures [alt-encoder-error-not-written] calls(Encode) == 1 && ret(Encode) != nil ==> calls(Write) == 0
+//@   ensures [alt-encoded-buffer-in-one-write] calls(Encode) == 1 && ret(Encode) == nil && writer != nil ==> calls(writer.Write) == 1 && calls(Write) == 1
 
 // ---------------- configuration reaches the rotation rule (C19) ----------------
 // The option setters store each configured value in its own field (these are the fields createOutput reads).
